@@ -227,8 +227,9 @@ func uniq(s []string) []string {
 type comparer struct {
 	c     *worldCase
 	class string
-	out   []mismatch
-	stop  bool // the real world's state diverged from the specification: later steps are meaningless
+	out     []mismatch
+	persist map[string]int // section+what -> last step at which it was seen
+	stop    bool // the real world's state diverged from the specification: later steps are meaningless
 }
 
 func (cm *comparer) add(stepNo int, section, what, msg string) {
@@ -236,6 +237,17 @@ func (cm *comparer) add(stepNo int, section, what, msg string) {
 	if stepNo >= 0 {
 		op = opSig(cm.c.Steps[stepNo].Ev)
 	}
+	// A mismatch of the live world's state persists over later steps: report it once, at the step that introduced
+	// it (so the key names the operation that caused it), not again after every later operation.
+	if cm.persist == nil {
+		cm.persist = map[string]int{}
+	}
+	id := section + "\x00" + what
+	if last, ok := cm.persist[id]; ok && last == stepNo-1 && stepNo >= 0 && !strings.Contains(section, ":") && section != "unchanged" && section != "mutate" && section != "roundtrip" {
+		cm.persist[id] = stepNo
+		return
+	}
+	cm.persist[id] = stepNo
 	key := fmt.Sprintf("%s:%s:%s:%s", cm.class, section, op, what)
 	cm.out = append(cm.out, mismatch{Step: stepNo, Section: section, Key: key, Msg: msg})
 }
